@@ -13,8 +13,9 @@
    Ghost fields (started / delivered / lost / lostc / abandoned) record per connection what happened to the requests whose handler
    was started; they do not influence any step.
 
-   Scope: connections accepted through Serve; Serve is not called again once Shutdown has begun (Serve needs s.mu, which
-   Shutdown holds until it returns).  No proofs in this file. *)
+   Scope: connections accepted through Serve.  The Server can be reused: any number of Serve calls and ShutdownWithContext calls, one
+   after the other (s.mu serialises Shutdown calls and keeps Serve out while one runs), also Serve / Shutdown again after a call that
+   returned ctx.Err().  No proofs in this file. *)
 From Coq Require Import List ZArith Bool Arith.
 Import ListNotations.
 Open Scope Z_scope.
@@ -60,13 +61,15 @@ Record conn := mkConn {
   delivered : Z;        (* responses that reached the client *)
   lost : Z;             (* responses of started handlers that the SERVER made undeliverable (closed the connection first, or dropped the writer) *)
   lostc : Z;            (* responses that could not be delivered because the client had closed *)
-  abandoned : Z         (* handlers left running by TimeoutHandler / hijack handlers still running *)
+  abandoned : Z;        (* handlers left running by TimeoutHandler / hijack handlers still running *)
+  cdone : option nat    (* the channel ctx.Done() gave to the current / last handler on this connection (None = nil) *)
 }.
 
 Record loop := mkLoop {
   lrunning : bool;      (* between s.serving.Add(1) and the return of Serve *)
   lbusy : bool;         (* Accept returned a connection that is not yet handed to a worker *)
-  lnopen : bool         (* its listener has not been closed *)
+  lnopen : bool;        (* its listener has not been closed *)
+  inln : bool           (* its listener is in s.ln (appended by Serve, dropped by closeListenersLocked: s.ln = nil) *)
 }.
 
 (* the thread inside ShutdownWithContext *)
@@ -78,12 +81,42 @@ Inductive spc :=
 | SReadServing      (* closeIdleConns done; s.serving.Load() comes next *)
 | SReadOpen         (* serving was 0; s.open.Load() comes next *)
 | SWait             (* select { ctx.Done ; ticker.C } *)
-| SReturnedNil      (* returned nil (deferred s.stop.Store(0) done) *)
-| SReturnedErr.     (* ctx expired: returned ctx.Err() *)
+| SReturnedNil      (* the last call returned nil (deferred s.stop.Store(0) done) *)
+| SReturnedErr.     (* the last call returned ctx.Err() *)
+
+(* s.done and s.doneClosed.  Channels are numbered in the order Serve makes them. *)
+Record dstate := mkD {
+  done : option nat;        (* s.done: None = nil *)
+  nextch : nat;             (* next fresh channel *)
+  closedch : list nat;      (* channels that have been closed *)
+  dflag : bool;             (* s.doneClosed *)
+  (* ghosts *)
+  tainted : bool;           (* a ShutdownWithContext returned ctx.Err() and no Shutdown has gone through its loop to the end since *)
+  failed : bool             (* a ShutdownWithContext has returned ctx.Err() at some point *)
+}.
+
+(* Serve: if s.done == nil { s.done = make(chan struct{}) } *)
+Definition serve_done (d : dstate) : dstate :=
+  match done d with
+  | None => mkD (Some (nextch d)) (S (nextch d)) (closedch d) (dflag d) (tainted d) (failed d)
+  | Some _ => d
+  end.
+(* ShutdownWithContext: if s.done != nil && !s.doneClosed { close(s.done); s.doneClosed = true } *)
+Definition close_done (d : dstate) : dstate :=
+  match done d with
+  | Some ch => if dflag d then d else mkD (done d) (nextch d) (ch :: closedch d) true (tainted d) (failed d)
+  | None => d
+  end.
+(* the success branch: s.done = nil; s.doneClosed = false *)
+Definition reset_done (d : dstate) : dstate := mkD None (nextch d) (closedch d) false false (failed d).
+(* the ctx.Done() branch resets nothing *)
+Definition give_up (d : dstate) : dstate := mkD (done d) (nextch d) (closedch d) (dflag d) true true.
+
+Definition chan_closed (d : dstate) (ch : nat) : bool := existsb (Nat.eqb ch) (closedch d).
 
 Record st := mkSt {
   stop : bool;          (* s.stop *)
-  doneClosed : bool;    (* s.done has been closed *)
+  dn : dstate;          (* s.done / s.doneClosed and the channels made so far *)
   serving : Z;          (* s.serving *)
   open : Z;             (* s.open *)
   now : Z;              (* Unix time *)
@@ -92,7 +125,7 @@ Record st := mkSt {
   loops : list loop
 }.
 
-Definition init : st := mkSt false false 0 0 100 SNotCalled [] [].
+Definition init : st := mkSt false (mkD None O [] false false false) 0 0 100 SNotCalled [] [].
 
 Inductive label :=
 (* acceptor threads *)
@@ -116,45 +149,47 @@ Fixpoint upd {A} (l : list A) (i : nat) (x : A) : list A :=
 
 Definition set_pc (r : conn) (p : cpc) : conn :=
   mkConn p (loopid r) (inmap r) (ival r) (tstart r) (srvClosed r) (cliClosed r) (inflight r) (buffered r) (unflushed r) (hijack r)
-         (started r) (delivered r) (lost r) (lostc r) (abandoned r).
+         (started r) (delivered r) (lost r) (lostc r) (abandoned r) (cdone r).
 
 (* leaving the loop on an error: `if bw != nil { releaseWriter(s, bw) }` - what is still in the writer is dropped (the connection is
    broken anyway).  A hijack flushes the writer itself before the hijack handler is started. *)
 Definition exit_loop (r : conn) : conn :=
   mkConn CExiting (loopid r) (inmap r) (ival r) (tstart r) (srvClosed r) (cliClosed r) (inflight r) (buffered r) 0 (hijack r)
          (started r) (delivered r)
-         (if cliClosed r then lost r else lost r + unflushed r) (if cliClosed r then lostc r + unflushed r else lostc r) (abandoned r).
+         (if cliClosed r then lost r else lost r + unflushed r) (if cliClosed r then lostc r + unflushed r else lostc r) (abandoned r) (cdone r).
 
 (* leaving the loop on the stop flag: `if bw != nil { err = bw.Flush() }; break` (since 66dbd41 the writer is flushed first) *)
 Definition flush_exit (r : conn) : conn :=
   if srvClosed r || cliClosed r then exit_loop r
   else mkConn CExiting (loopid r) (inmap r) (ival r) (tstart r) (srvClosed r) (cliClosed r) (inflight r) (buffered r) 0 (hijack r)
-              (started r) (delivered r + unflushed r) (lost r) (lostc r) (abandoned r).
+              (started r) (delivered r + unflushed r) (lost r) (lostc r) (abandoned r) (cdone r).
 
 (* closeIdleConns looks at one entry of s.idleConns: t := ict.Load(); if t != 0 && now-t >= 0 { c.Close(); delete } *)
 Definition close_if_idle (t : Z) (r : conn) : conn :=
   if inmap r && negb (ival r =? 0) && (ival r <=? t) then
     mkConn (pc r) (loopid r) false (ival r) (tstart r) true (cliClosed r) (inflight r) (buffered r) (unflushed r) (hijack r)
-           (started r) (delivered r) (lost r) (lostc r) (abandoned r)
+           (started r) (delivered r) (lost r) (lostc r) (abandoned r) (cdone r)
   else r.
 
-Definition set_conns (s : st) (cs : list conn) : st := mkSt (stop s) (doneClosed s) (serving s) (open s) (now s) (sd s) cs (loops s).
-Definition set_sd (s : st) (p : spc) : st := mkSt (stop s) (doneClosed s) (serving s) (open s) (now s) p (conns s) (loops s).
+Definition set_conns (s : st) (cs : list conn) : st := mkSt (stop s) (dn s) (serving s) (open s) (now s) (sd s) cs (loops s).
+Definition set_sd (s : st) (p : spc) : st := mkSt (stop s) (dn s) (serving s) (open s) (now s) p (conns s) (loops s).
 
-Definition shutdown_begun (s : st) : bool := match sd s with SNotCalled => false | _ => true end.
+(* ShutdownWithContext is running: it holds s.mu from its first to its last statement, Serve needs s.mu to register its listener *)
+Definition sd_running (s : st) : bool :=
+  match sd s with SStopSet | SLnClosed | SLoop | SReadServing | SReadOpen | SWait => true | _ => false end.
 
 Definition step (cf : cfg) (s : st) (l : label) : option st :=
   match l with
   | LServeStart =>            (* Serve: s.mu.Lock(); s.ln = append(s.ln, ln); ...; s.serving.Add(1) *)
-      if shutdown_begun s then None else
-      Some (mkSt (stop s) (doneClosed s) (serving s + 1) (open s) (now s) (sd s) (conns s) (loops s ++ [mkLoop true false true]))
+      if sd_running s then None else
+      Some (mkSt (stop s) (serve_done (dn s)) (serving s + 1) (open s) (now s) (sd s) (conns s) (loops s ++ [mkLoop true false true true]))
   | LAccept k =>              (* ln.Accept() returns a connection *)
       match nth_error (loops s) k with
       | Some lp =>
           if lrunning lp && negb (lbusy lp) && lnopen lp then
-            Some (mkSt (stop s) (doneClosed s) (serving s) (open s) (now s) (sd s)
-                       (conns s ++ [mkConn CAccepted k false 0 0 false false 0 0 0 false 0 0 0 0 0])
-                       (upd (loops s) k (mkLoop true true (lnopen lp))))
+            Some (mkSt (stop s) (dn s) (serving s) (open s) (now s) (sd s)
+                       (conns s ++ [mkConn CAccepted k false 0 0 false false 0 0 0 false 0 0 0 0 0 None])
+                       (upd (loops s) k (mkLoop true true (lnopen lp) (inln lp))))
           else None
       | None => None
       end
@@ -163,8 +198,8 @@ Definition step (cf : cfg) (s : st) (l : label) : option st :=
       | Some r =>
           match pc r, nth_error (loops s) (loopid r) with
           | CAccepted, Some lp =>
-              Some (mkSt (stop s) (doneClosed s) (serving s) (open s + 1) (now s) (sd s) (upd (conns s) c (set_pc r CQueued))
-                         (upd (loops s) (loopid r) (mkLoop (lrunning lp) false (lnopen lp))))
+              Some (mkSt (stop s) (dn s) (serving s) (open s + 1) (now s) (sd s) (upd (conns s) c (set_pc r CQueued))
+                         (upd (loops s) (loopid r) (mkLoop (lrunning lp) false (lnopen lp) (inln lp))))
           | _, _ => None
           end
       | None => None
@@ -173,7 +208,7 @@ Definition step (cf : cfg) (s : st) (l : label) : option st :=
       match nth_error (loops s) k with
       | Some lp =>
           if lrunning lp && negb (lbusy lp) && negb (lnopen lp) then
-            Some (mkSt (stop s) (doneClosed s) (serving s - 1) (open s) (now s) (sd s) (conns s) (upd (loops s) k (mkLoop false false false)))
+            Some (mkSt (stop s) (dn s) (serving s - 1) (open s) (now s) (sd s) (conns s) (upd (loops s) k (mkLoop false false false (inln lp))))
           else None
       | None => None
       end
@@ -184,7 +219,7 @@ Definition step (cf : cfg) (s : st) (l : label) : option st :=
           | CQueued =>
               Some (set_conns s (upd (conns s) c
                      (mkConn CLoopTop (loopid r) true (now s + 5) (tstart r) (srvClosed r) (cliClosed r) (inflight r) (buffered r) (unflushed r)
-                             (hijack r) (started r) (delivered r) (lost r) (lostc r) (abandoned r))))
+                             (hijack r) (started r) (delivered r) (lost r) (lostc r) (abandoned r) (cdone r))))
           | _ => None
           end
       | None => None
@@ -209,7 +244,7 @@ Definition step (cf : cfg) (s : st) (l : label) : option st :=
               else if negb (srvClosed r) && (0 <? inflight r) then
                 Some (set_conns s (upd (conns s) c
                        (mkConn CGotByte (loopid r) (inmap r) (ival r) (tstart r) (srvClosed r) (cliClosed r) 0 (inflight r) (unflushed r)
-                               (hijack r) (started r) (delivered r) (lost r) (lostc r) (abandoned r))))
+                               (hijack r) (started r) (delivered r) (lost r) (lostc r) (abandoned r) (cdone r))))
               else None
           | _ => None
           end
@@ -234,7 +269,7 @@ Definition step (cf : cfg) (s : st) (l : label) : option st :=
           | CGotByte =>
               Some (set_conns s (upd (conns s) c
                      (mkConn CActive (loopid r) (inmap r) 0 (tstart r) (srvClosed r) (cliClosed r) (inflight r) (buffered r) (unflushed r)
-                             (hijack r) (started r) (delivered r) (lost r) (lostc r) (abandoned r))))
+                             (hijack r) (started r) (delivered r) (lost r) (lostc r) (abandoned r) (cdone r))))
           | _ => None
           end
       | None => None
@@ -269,7 +304,7 @@ Definition step (cf : cfg) (s : st) (l : label) : option st :=
               if 0 <? buffered r then
                 Some (set_conns s (upd (conns s) c
                        (mkConn CHandler (loopid r) (inmap r) (ival r) (now s) (srvClosed r) (cliClosed r) (inflight r) (buffered r - 1) (unflushed r)
-                               false (started r + 1) (delivered r) (lost r) (lostc r) (abandoned r))))
+                               false (started r + 1) (delivered r) (lost r) (lostc r) (abandoned r) (done (dn s)))))
               else None
           | _ => None
           end
@@ -287,7 +322,7 @@ Definition step (cf : cfg) (s : st) (l : label) : option st :=
           | CHandler =>
               Some (set_conns s (upd (conns s) c
                      (mkConn CWrite (loopid r) (inmap r) (ival r) (tstart r) (srvClosed r) (cliClosed r) (inflight r) (buffered r) (unflushed r)
-                             (hijack r) (started r) (delivered r) (lost r) (lostc r) (abandoned r + 1))))
+                             (hijack r) (started r) (delivered r) (lost r) (lostc r) (abandoned r + 1) (cdone r))))
           | _ => None
           end
       | None => None
@@ -299,7 +334,7 @@ Definition step (cf : cfg) (s : st) (l : label) : option st :=
           | CHandler =>
               Some (set_conns s (upd (conns s) c
                      (mkConn CWrite (loopid r) (inmap r) (ival r) (tstart r) (srvClosed r) (cliClosed r) (inflight r) (buffered r) (unflushed r)
-                             true (started r) (delivered r) (lost r) (lostc r) (abandoned r))))
+                             true (started r) (delivered r) (lost r) (lostc r) (abandoned r) (cdone r))))
           | _ => None
           end
       | None => None
@@ -318,16 +353,16 @@ Definition step (cf : cfg) (s : st) (l : label) : option st :=
                   Some (set_conns s (upd (conns s) c
                          (mkConn CExiting (loopid r) (inmap r) (ival r) (tstart r) (srvClosed r) (cliClosed r) (inflight r) (buffered r) 0 (hijack r)
                                  (started r) (delivered r) (if cliClosed r then lost r else lost r + u) (if cliClosed r then lostc r + u else lostc r)
-                                 (abandoned r))))
+                                 (abandoned r) (cdone r))))
                 else
                   Some (set_conns s (upd (conns s) c
                          (mkConn (if cclose || hijack r then CExiting else CWritten)
                                  (loopid r) (inmap r) (ival r) (tstart r) (srvClosed r) (cliClosed r) (inflight r) (buffered r) 0 (hijack r)
-                                 (started r) (delivered r + u) (lost r) (lostc r) (if hijack r then abandoned r + 1 else abandoned r))))
+                                 (started r) (delivered r + u) (lost r) (lostc r) (if hijack r then abandoned r + 1 else abandoned r) (cdone r))))
               else
                 Some (set_conns s (upd (conns s) c
                        (mkConn CWritten (loopid r) (inmap r) (ival r) (tstart r) (srvClosed r) (cliClosed r) (inflight r) (buffered r) u (hijack r)
-                               (started r) (delivered r) (lost r) (lostc r) (abandoned r))))
+                               (started r) (delivered r) (lost r) (lostc r) (abandoned r) (cdone r))))
           | _ => None
           end
       | None => None
@@ -340,7 +375,7 @@ Definition step (cf : cfg) (s : st) (l : label) : option st :=
           | CWritten =>
               Some (set_conns s (upd (conns s) c
                      (mkConn CStoredT (loopid r) (inmap r) (if (buffered r =? 0) && (unflushed r =? 0) then tstart r else ival r) (tstart r) (srvClosed r) (cliClosed r) (inflight r) (buffered r) (unflushed r)
-                             (hijack r) (started r) (delivered r) (lost r) (lostc r) (abandoned r))))
+                             (hijack r) (started r) (delivered r) (lost r) (lostc r) (abandoned r) (cdone r))))
           | _ => None
           end
       | None => None
@@ -363,7 +398,7 @@ Definition step (cf : cfg) (s : st) (l : label) : option st :=
           | CExiting =>
               Some (set_conns s (upd (conns s) c
                      (mkConn CUnreg (loopid r) false (ival r) (tstart r) (srvClosed r) (cliClosed r) (inflight r) (buffered r) (unflushed r)
-                             (hijack r) (started r) (delivered r) (lost r) (lostc r) (abandoned r))))
+                             (hijack r) (started r) (delivered r) (lost r) (lostc r) (abandoned r) (cdone r))))
           | _ => None
           end
       | None => None
@@ -373,35 +408,31 @@ Definition step (cf : cfg) (s : st) (l : label) : option st :=
       | Some r =>
           match pc r with
           | CUnreg =>
-              Some (mkSt (stop s) (doneClosed s) (serving s) (open s - 1) (now s) (sd s) (upd (conns s) c (set_pc r CClosed)) (loops s))
+              Some (mkSt (stop s) (dn s) (serving s) (open s - 1) (now s) (sd s) (upd (conns s) c (set_pc r CClosed)) (loops s))
           | _ => None
           end
       | None => None
       end
-  | LSetStop =>               (* s.mu.Lock(); s.stop.Store(1); `if s.ln == nil { return nil }` when Serve was never called *)
-      match sd s with
-      | SNotCalled =>
-          match loops s with
-          | [] => Some (set_sd s SReturnedNil)
-          | _ => Some (mkSt true (doneClosed s) (serving s) (open s) (now s) SStopSet (conns s) (loops s))
-          end
-      | _ => None
-      end
+  | LSetStop =>               (* a call of ShutdownWithContext (the first one, or a later one - after a successful or a timed-out call):
+                                 s.mu.Lock(); s.stop.Store(1); `if s.ln == nil { return nil }` (deferred s.stop.Store(0)) *)
+      if sd_running s then None else
+      if existsb inln (loops s) then Some (mkSt true (dn s) (serving s) (open s) (now s) SStopSet (conns s) (loops s))
+      else Some (set_sd s SReturnedNil)
   | LCloseListeners =>        (* closeListenersLocked *)
       match sd s with
       | SStopSet =>
-          Some (mkSt (stop s) (doneClosed s) (serving s) (open s) (now s) SLnClosed (conns s)
-                     (map (fun lp => mkLoop (lrunning lp) (lbusy lp) false) (loops s)))
+          Some (mkSt (stop s) (dn s) (serving s) (open s) (now s) SLnClosed (conns s)
+                     (map (fun lp => mkLoop (lrunning lp) (lbusy lp) false false) (loops s)))
       | _ => None
       end
   | LCloseDone =>             (* close(s.done) *)
       match sd s with
-      | SLnClosed => Some (mkSt (stop s) true (serving s) (open s) (now s) SLoop (conns s) (loops s))
+      | SLnClosed => Some (mkSt (stop s) (close_done (dn s)) (serving s) (open s) (now s) SLoop (conns s) (loops s))
       | _ => None
       end
   | LCloseIdle =>             (* closeIdleConns: one pass over s.idleConns under idleConnsMu *)
       match sd s with
-      | SLoop => Some (mkSt (stop s) (doneClosed s) (serving s) (open s) (now s) SReadServing (map (close_if_idle (now s)) (conns s)) (loops s))
+      | SLoop => Some (mkSt (stop s) (dn s) (serving s) (open s) (now s) SReadServing (map (close_if_idle (now s)) (conns s)) (loops s))
       | _ => None
       end
   | LReadServing =>           (* s.serving.Load() == 0 ? *)
@@ -412,7 +443,7 @@ Definition step (cf : cfg) (s : st) (l : label) : option st :=
   | LReadOpen =>              (* s.open.Load() == 0 ? return lnerr (nil), deferred s.stop.Store(0) *)
       match sd s with
       | SReadOpen =>
-          if open s =? 0 then Some (mkSt false (doneClosed s) (serving s) (open s) (now s) SReturnedNil (conns s) (loops s))
+          if open s =? 0 then Some (mkSt false (reset_done (dn s)) (serving s) (open s) (now s) SReturnedNil (conns s) (loops s))
           else Some (set_sd s SWait)
       | _ => None
       end
@@ -420,7 +451,7 @@ Definition step (cf : cfg) (s : st) (l : label) : option st :=
       match sd s with SWait => Some (set_sd s SLoop) | _ => None end
   | LCtxExpire =>             (* case <-ctx.Done(): return ctx.Err(), deferred s.stop.Store(0) *)
       match sd s with
-      | SWait => Some (mkSt false (doneClosed s) (serving s) (open s) (now s) SReturnedErr (conns s) (loops s))
+      | SWait => Some (mkSt false (give_up (dn s)) (serving s) (open s) (now s) SReturnedErr (conns s) (loops s))
       | _ => None
       end
   | LSend c =>                (* the client sends one more request *)
@@ -429,7 +460,7 @@ Definition step (cf : cfg) (s : st) (l : label) : option st :=
           if cliClosed r then None else
           Some (set_conns s (upd (conns s) c
                  (mkConn (pc r) (loopid r) (inmap r) (ival r) (tstart r) (srvClosed r) (cliClosed r) (inflight r + 1) (buffered r) (unflushed r)
-                         (hijack r) (started r) (delivered r) (lost r) (lostc r) (abandoned r))))
+                         (hijack r) (started r) (delivered r) (lost r) (lostc r) (abandoned r) (cdone r))))
       | None => None
       end
   | LClientClose c =>
@@ -437,11 +468,11 @@ Definition step (cf : cfg) (s : st) (l : label) : option st :=
       | Some r =>
           Some (set_conns s (upd (conns s) c
                  (mkConn (pc r) (loopid r) (inmap r) (ival r) (tstart r) (srvClosed r) true (inflight r) (buffered r) (unflushed r)
-                         (hijack r) (started r) (delivered r) (lost r) (lostc r) (abandoned r))))
+                         (hijack r) (started r) (delivered r) (lost r) (lostc r) (abandoned r) (cdone r))))
       | None => None
       end
   | LTick d =>
-      if d <? 0 then None else Some (mkSt (stop s) (doneClosed s) (serving s) (open s) (now s + d) (sd s) (conns s) (loops s))
+      if d <? 0 then None else Some (mkSt (stop s) (dn s) (serving s) (open s) (now s + d) (sd s) (conns s) (loops s))
   end.
 
 Fixpoint run (cf : cfg) (s : st) (tr : list label) : option st :=
